@@ -87,10 +87,10 @@ def plan(pid, tier, seed):
             return [('A0', 1, V_ALL), ('A2', 1, V_AUTH), ('A3', 1, V_AUTH), ('A1', 16, V_AUTH), ('B', 12, V_PATH),
                     ('C', 10, V_PATH), ('D', 300, V_ALL), ('E', 1, ())]
         return [('A0', 1, V_ALL), ('A2', 1, V_AUTH), ('A3', 1, V_AUTH), ('A1', 1, V_AUTH), ('B', 1, V_PATH),
-                ('C', 1, V_PATH), ('D', 4, V_ALL), ('E', 1, ('fragment',))]
+                ('C', 1, V_PATH), ('D', 8, V_ALL), ('E', 1, ('fragment',))]
     if quick:
         return [('A0', 1, ()), ('A2', 1, ()), ('A3', 1, ()), ('A1', 8, ()), ('B', 12, ()),
-                ('C', 8, ()), ('E', 1, ()), ('S', 25, ()), ('SH', 3, ()), ('S2', 8, ())]
+                ('C', 8, ()), ('E', 1, ()), ('S', 40, ()), ('SH', 5, ()), ('S2', 12, ())]
     return [('A0', 1, ()), ('A2', 1, ()), ('A3', 1, ()), ('A1', 1, ()), ('B', 1, ()), ('C', 1, ()),
             ('D', 8, ()), ('E', 1, ()), ('S', 1, ()), ('SH', 1, ()), ('S2', 1, ())]
 
@@ -273,19 +273,12 @@ def signature_c10(clause, rec, base, enc):
     return sig
 
 
-def scheme_class(rec):
-    if rec['oc'] != 'value':
-        return 'unparsed'
-    return 'network' if rec['net'] or rec.get('sch') else 'non-network'
-
-
 def signatures_c11(clause, rec):
     """One signature per failing call site."""
     sigs = []
     if clause == 'ParseTotal':
         sigs.append({'clause': clause, 'call': 'URLInfo.parse', 'exception': rec['exc']})
     elif clause == 'AccessorsTotal':
-        net = 'network' if rec.get('sch') is not None and rec['net'] or rec['uoc'] != 'value' and rec.get('sch') else None
         for name, exc in rec['accfail']:
             sigs.append({'clause': clause, 'accessor': name, 'exception': exc,
                          'scheme': 'network' if rec['net'] or rec['uoc'] != 'value' else 'non-network'})
@@ -332,6 +325,12 @@ def run(chk):
     # ---- 2. the real code
     t0 = time.time()
     records = execute(fams, full=not c10)
+    skipped = sum(1 for r in records if r is None)
+    if skipped:
+        chk.note('%d of %d families were not executed: the watchdog budget (%d hanging inputs per process) was used up'
+                 % (skipped, len(fams), 12))
+        fams = [f for f, r in zip(fams, records) if r is not None]
+        records = [r for r in records if r is not None]
     nmembers = sum(len(r) for r in records)
     timing['execute_real_s'] = round(time.time() - t0, 1)
     t0 = time.time()
@@ -356,7 +355,7 @@ def run(chk):
         chk.validated(1)
         changed = rec['oc'] != 'value' or not rec['net'] or _s(rec['url']) != text
         chk.case(key=(text, fam['enc']), nontrivial=changed)
-        if len(chk.samples) < 5 and mi == 1 and rec['oc'] == 'value' and rec['net'] and fi % 97 == 3:
+        if len(chk.samples) < 5 and mi == (1 if c10 else 0) and fi % (97 if c10 else 1499) == 3:
             chk.samples.append({'cluster': fam['cl'], 'tags': fam['tags'], 'encoding': fam['enc'],
                                 'family': [[k, _s(t)] for k, t in fam['m']],
                                 'real_outputs': [_s(r['url']) if r['oc'] == 'value' else r['oc'] for r in records[fi]]})
@@ -410,3 +409,45 @@ def replay(chk, path):
               '| second pass:', rec['oc2'], ascii(_s(rec['url2'])), '| accessors:', rec['acc'], rec['accfail'],
               '| log:', rec['log'], '| join:', rec['join'], rec['joinfail'])
     return 0
+
+
+def selftest(chk):
+    """Binding self-test: a corrupted log field must be rejected by the strict spec / flagged by the monitor."""
+    import copy
+    fams, res = generate('A0', 1, 0, V_ALL, False, [], workers=2)
+    tlc.require_ok(res, 'generator A0')
+    fams = fams[:60]
+    records = execute(fams, full=True)
+    flat = [r for fam in records for r in fam]
+    good = next(r for r in flat if r['oc'] == 'value' and r['uoc'] == 'value' and r['net'] and r['oc2'] == 'value'
+                and r['url2'] == r['url'] and not any(65 <= c <= 90 or c == 64 for c in r['url'])
+                and r['url'][:7] == [ord(c) for c in 'http://'])
+    bad_url = copy.deepcopy(good)
+    bad_url['url'] = good['url'][:-1] + [good['url'][-1] + 1]          # one character of the logged output
+    bad_port = copy.deepcopy(good)
+    bad_port['port'] = good['port'] + 1                                # one logged component
+    bad_oc = copy.deepcopy(good)
+    bad_oc['oc'] = 'valueerror'                                        # the logged outcome class
+    sv, _ = strict([{'ev': [_slim(r, TRACE_FIELDS)]} for r in (good, bad_url, bad_port, bad_oc)])
+    strict_ok = [v['accepted'] for v in sv] == [True, False, False, False]
+    print('strict spec: original accepted=%s, corrupted url/port/outcome accepted=%s'
+          % (sv[0]['accepted'], [v['accepted'] for v in sv[1:]]))
+    up = copy.deepcopy(good)
+    i = next(k for k, c in enumerate(up['url']) if k >= 7 and 97 <= c <= 122)
+    up['url'][i] -= 32                                                 # an upper-case letter in the host
+    non_idem = copy.deepcopy(good)
+    non_idem['url2'] = good['url'] + [97]
+    acc = copy.deepcopy(good)
+    acc['acc'], acc['log'], acc['join'] = 'ok', 'ok', 'ok'
+    hang = copy.deepcopy(acc)
+    hang['log'] = 'hang'
+    other = copy.deepcopy(acc)
+    other['oc'] = 'other'
+    m10, _ = monitor('C10', [{'ev': [_slim(r, MON_FIELDS)]} for r in (good, up, non_idem)])
+    m11, _ = monitor('C11', [{'ev': [_slim(r, MON_FIELDS)]} for r in (acc, hang, other)])
+    print('monitor C10 masks (good, upper-case host, second pass differs):', [v['bad'] for v in m10])
+    print('monitor C11 masks (good, log hangs, parse raises other):', [v['bad'] for v in m11])
+    mon_ok = (m10[0]['bad'] == 0 and m10[1]['bad'] & 4 and m10[2]['bad'] & 64
+              and m11[0]['bad'] == 0 and m11[1]['bad'] & 16 and m11[2]['bad'] & 1)
+    print('SELFTEST', 'ok' if strict_ok and mon_ok else 'FAILED')
+    return 0 if strict_ok and mon_ok else 2
